@@ -23,10 +23,12 @@ pub struct Case {
 pub fn random_case(r: &mut Rng, max_items: usize) -> Case {
   let w = [1u64, 5, 10][r.below(3)];
   let e = [Edge::Leading, Edge::Trailing, Edge::All][r.below(3)];
+  // a zero-length window is legal for debounce and throttle (every item opens and closes its own window)
+  let wz = if r.chance(1, 8) { 0 } else { w };
   let op = match r.below(12) {
-    0 | 1 | 2 => Op::Debounce(w),
-    3 | 4 | 5 => Op::ThrottleTime(w, e),
-    6 | 7 => Op::Throttle(w, e),
+    0 | 1 | 2 => Op::Debounce(wz),
+    3 | 4 | 5 => Op::ThrottleTime(wz, e),
+    6 | 7 => Op::Throttle(wz, e),
     8 => Op::Sample(Box::new(Chain::new(Src::Interval(w), vec![]))),
     9 | 10 => Op::BufferWithTime(w),
     _ => Op::BufferWithCountAndTime(1 + r.below(3), w),
@@ -362,6 +364,8 @@ pub fn judge(c: &Case, o: &Result<Obs, String>) -> Option<(String, serde_json::V
   // exact timed models on prompt runs
   if !c.late {
     let allowed = match &c.op {
+      // zero-length windows: invariants only (the window end coincides with its own opener)
+      Op::Debounce(0) | Op::ThrottleTime(0, _) | Op::Throttle(0, _) => None,
       Op::Debounce(d) => Some(debounce_model(*d * MS, &c.script)),
       Op::ThrottleTime(_, e) | Op::Throttle(_, e) => Some(throttle_model(&c.op, *e, &c.script)),
       Op::Sample(ch) => match ch.src {
@@ -470,13 +474,13 @@ pub fn run(cfg: &Cfg, rep: &mut Report) {
   // while 1-2 producer threads emit (and one may unsubscribe)
   let n = cfg.n(8_000, 400_000);
   let fams = [15usize, 16, 17];
-  super::thr::systematic_families(cfg, rep, 0xC09A, &fams, &|_, _| {}, &|o, s| super::thr::rate_oracle(o, s));
+  super::thr::systematic_families(cfg, rep, 0xC09A, &fams, &|_, _| {}, &|o, s| super::thr::rate_oracle(o, s).or_else(|| super::thr::rate_linearizable(o, s)));
   super::thr::campaign(cfg, rep, "thr", n, 0xC09F, &mut |r: &mut Rng| {
     let f = fams[r.below(3)];
     super::thr::random_scen(r, f)
-  }, &|o, s| super::thr::rate_oracle(o, s));
+  }, &|o, s| super::thr::rate_oracle(o, s).or_else(|| super::thr::rate_linearizable(o, s)));
   super::thr::free_campaign(cfg, rep, cfg.n(1_500, 150_000), 0xC09E, &mut |r: &mut Rng| {
     let f = fams[r.below(3)];
     super::thr::random_scen(r, f)
-  }, &|o, s| super::thr::rate_oracle(o, s));
+  }, &|o, s| super::thr::rate_oracle(o, s).or_else(|| super::thr::rate_linearizable(o, s)));
 }
